@@ -318,7 +318,11 @@ def library_oracle_(ctx, floor0):
                # out), and triangular banks whose high_hz lies within the accepted 1 Hz above the Nyquist frequency
                ("tri", dict(name="linear", low_hz=40.0, slope_hz=1.25), 1000, 0.0, 300.0, 4),
                ("tri", "mel", 1000, 20.0, 500.25, 4), ("tri", "bark", 8000, 100.0, 4000.5, 6),
-               ("tri_analytic", dict(name="linear", low_hz=10.0, slope_hz=0.5), 4000, 0.0, 1500.0, 5)]
+               ("tri_analytic", dict(name="linear", low_hz=10.0, slope_hz=0.5), 4000, 0.0, 1500.0, 5),
+               # frame lengths that ARE powers of two (64, 128, 256 samples), padded: the DFT size is the first power of
+               # two at or beyond the frame length, i.e. the frame length itself (7th entry: frame length in ms)
+               ("tri", "mel", 8000, 20.0, 3800.0, 4, 8.0), ("fbank", "mel", 8000, 20.0, 3800.0, 4, 16.0),
+               ("gabor", "mel", 8000, 100.0, 3800.0, 4, 32.0)]
     for it in range(n):
         if ctx.out_of_time():
             break
@@ -333,8 +337,10 @@ def library_oracle_(ctx, floor0):
         hi = r.choice([rate / 2, rate / 2 - 100.0, rate / 4])
         if hi <= lo:
             hi = float(rate // 2)
+        corner_flen = None
         if corner:
-            kind, scale, rate, lo, hi, nf = corner
+            kind, scale, rate, lo, hi, nf = corner[:6]
+            corner_flen = corner[6] if len(corner) > 6 else None
         if isinstance(scale, dict) and scale.get("name") == "octave" and lo < 30.0:
             lo = 30.0
         fb_analytic = r.random() < 0.3
@@ -361,6 +367,9 @@ def library_oracle_(ctx, floor0):
         if corner:
             flags = dict(use_log=False, use_power=it % 2 == 0, include_energy=it % 4 >= 2, pad_to_nearest_power_of_two=it % 3 == 0)
             style, kaldi, flen, shift, wname = "centered", False, 25.0, 10.0, "hann"
+            if corner_flen is not None:
+                flen, shift = corner_flen, corner_flen / 4
+                flags["pad_to_nearest_power_of_two"] = True
         try:
             comp = compute.STFTFrameComputer(bank, frame_length_ms=flen, frame_shift_ms=shift, frame_style=style,
                                              kaldi_shift=kaldi, window_function=wname, **flags)
